@@ -117,6 +117,13 @@ def queries():
     for pl in (11, 12):
         qs.append(rt("rt-cbc-expl-sha384-b16-P%d" % pl, "cbc", pl, defs=["-DEXPL=1", "-DML=48", "-DTOY_BLK=16"], tier="thorough",
                      what="CBC explicit IV, MAC 48, block 16"))
+    # 48-byte MAC with the MAC starting >= 32 bytes into the receiver's rotation window (all six conditional
+    # rotations of cbc_decrypt are needed); added by the main session after the seeded change C01b escaped
+    for pl in (33, 40, 47):
+        qs.append(rt("rt-cbc-expl-sha384-b16-P%d" % pl, "cbc", pl, defs=["-DEXPL=1", "-DML=48", "-DTOY_BLK=16"],
+                     what="CBC explicit IV, MAC 48, block 16, MAC rotation count >= 32"))
+    qs.append(rt("rt-cbc-impl-hs-sha384-b16-P40", "cbc", 40, defs=["-DEXPL=0", "-DML=48", "-DTOY_BLK=16", "-DRTYPE=22"],
+                 what="CBC implicit IV, MAC 48, block 16, MAC rotation count >= 32"))
     # payload = the whole area max_plaintext offers in a small concrete buffer (C16.b cross-check)
     for (nm, mode, defs, units, what, buf, tier) in (
             ("cbc-expl-sha1-b16", "cbc", ["-DEXPL=1", "-DML=20", "-DTOY_BLK=16"], (), "CBC explicit IV, MAC 20, block 16", 80, "quick"),
